@@ -224,6 +224,26 @@ namespace embedded_pairing::wkdibe {
         qualified.a1.copy(sk.a1);
     }
 
+    /*
+     * Sets diff to (to - from) modulo the group order, as a value in [0, r).
+     * The IDs are arbitrary 256-bit integers, so they may exceed r.
+     */
+    static void id_difference(Scalar& diff, const ID& to, const ID& from) {
+        Scalar t;
+        Scalar f;
+        t.copy(to);
+        f.copy(from);
+        while (Scalar::compare(t, group_order) != -1) {
+            t.subtract(t, group_order);
+        }
+        while (Scalar::compare(f, group_order) != -1) {
+            f.subtract(f, group_order);
+        }
+        if (diff.subtract(t, f)) {
+            diff.add(diff, group_order);
+        }
+    }
+
     void adjust_nondelegable(SecretKey& sk, const SecretKey& parent, const AttributeList& from, const AttributeList& to) {
         G1 temp;
         Scalar diff;
@@ -233,10 +253,10 @@ namespace embedded_pairing::wkdibe {
         int x = 0;
         for (int i = 0; i != parent.l; i++) {
             int idx = parent.b[i].idx;
-            while (j != from.length && from.attrs[j].idx < idx && !from.attrs[j].omitFromKeys) {
+            while (j != from.length && from.attrs[j].idx < idx) {
                 j++;
             }
-            while (k != to.length && to.attrs[k].idx < idx && !to.attrs[k].omitFromKeys) {
+            while (k != to.length && to.attrs[k].idx < idx) {
                 k++;
             }
 
@@ -246,14 +266,12 @@ namespace embedded_pairing::wkdibe {
             if (j != from.length || k != to.length) {
                 if (sub_from && add_to) {
                     if (!ID::equal(from.attrs[j].id, to.attrs[k].id)) {
-                        if (diff.subtract(to.attrs[k].id, from.attrs[j].id)) {
-                            diff.add(diff, group_order);
-                        }
+                        id_difference(diff, to.attrs[k].id, from.attrs[j].id);
                         temp.multiply(parent.b[i].hexp, diff);
                         sk.a0.add(sk.a0, temp);
                     }
                 } else if (sub_from) {
-                    diff.subtract(group_order, from.attrs[j].id);
+                    id_difference(diff, ID::zero, from.attrs[j].id);
                     temp.multiply(parent.b[i].hexp, diff);
                     sk.a0.add(sk.a0, temp);
                 } else if (add_to) {
@@ -293,16 +311,14 @@ namespace embedded_pairing::wkdibe {
             const Attribute& to_attr = to.attrs[j];
             if (from_attr.idx == to_attr.idx) {
                 if (!ID::equal(from_attr.id, to_attr.id)) {
-                    if (diff.subtract(to_attr.id, from_attr.id)) {
-                        diff.add(diff, group_order);
-                    }
+                    id_difference(diff, to_attr.id, from_attr.id);
                     temp.multiply(params.h[to_attr.idx], diff);
                     precomputed.prodexp.add(precomputed.prodexp, temp);
                 }
                 i++;
                 j++;
             } else if (from_attr.idx < to_attr.idx) {
-                diff.subtract(group_order, from_attr.id);
+                id_difference(diff, ID::zero, from_attr.id);
                 temp.multiply(params.h[from_attr.idx], diff);
                 precomputed.prodexp.add(precomputed.prodexp, temp);
                 i++;
@@ -314,7 +330,7 @@ namespace embedded_pairing::wkdibe {
         }
         while (i != from.length) {
             const Attribute& from_attr = from.attrs[i];
-            diff.subtract(group_order, from_attr.id);
+            id_difference(diff, ID::zero, from_attr.id);
             temp.multiply(params.h[from_attr.idx], diff);
             precomputed.prodexp.add(precomputed.prodexp, temp);
             i++;
